@@ -63,6 +63,8 @@ def configs(tier):
         add("normalize", n)
         if n >= 2:
             add("smoothness", n)
+            if n in (2, 3):
+                add("smoothness", n, second_call=1)
         add("simplex", n)
         if n <= (3 if q else 4):
             add("soft_sparsity", n)
@@ -235,6 +237,11 @@ def harness(E, cfg):
     elif op == "smoothness":
         v = _in(E, cfg)
         t = E.real("t", pos=True)
+        if cfg.get("second_call"):
+            # an earlier call in the same process with ANOTHER regulariser (same length, same dtype): the operator must not carry
+            # state from one call to the next
+            t0 = E.real("t_first", pos=True)
+            P.proximal_operator(np.array(v), smoothness=t0)
         p = P.proximal_operator(v, smoothness=t)
         pc, vc = col(p, 0), col(v, 0)
         c = []
